@@ -278,7 +278,7 @@ def _compile_ode():
 
 def main(tier):
     run = check.Run(PID, tier)
-    check.JOB_BUDGET[0] = 240 if tier == "quick" else 3000
+    check.JOB_BUDGET[0] = 240 if tier == "quick" else 1500
     B = G.BASIC
     groups = [B["SO2"], B["SO3"], B["SE2"], B["SE3"], G.Bundle([B["SO3"], G.Tn(3)])] + ([B["Galilei"], B["SE_2_3"]] if tier == "thorough" else [])
     check.run_jobs([(_compile, (g,)) for g in groups] + [(_compile_ode, ())])
@@ -286,7 +286,7 @@ def main(tier):
     for gn in ODE_G:
         jobs += [(job_ode, (gn, "scale_sum", N, tier)) for N in (1, 2, 3, 4, 6)]
         jobs += [(job_ode, (gn, "step", s, tier)) for s in range(4)]
-    run.extend(check.run_jobs(jobs, timeout=900 if tier == "quick" else 3600))
+    run.extend(check.run_jobs(jobs, timeout=900 if tier == "quick" else 1800))
     run.bounds += ["groups: " + ", ".join(g.name for g in groups), "one operation from an arbitrary valid state (inductive step); odeint: scale_sum arities 2,3,4,5,7 and euler/rk4/cash-karp/dopri5 on SO3, SE2"]
     run.assumptions += ["layer R: exact real arithmetic; the (n+1)*1e-14 drift bound of long floating-point chains is a sampling statement and outside the claim",
                         "exactness of each operation against the group-theoretic result is C01/C02", "adaptive steppers outside"]
